@@ -83,7 +83,8 @@ def assemble(plan, repo='/repo', abstract_backend=False, force_external=None, ou
             if cur_mod is not None:
                 out.append('} // mod %s\n' % cur_mod)
             cur_mod = it.name
-            mods.append(it.name)
+            if getattr(it, 'export', True):
+                mods.append(it.name)
             out.append('\npub mod %s {\nuse super::*;\n%s' % (it.name, ''.join('use %s;\n' % u for u in it.uses)))
         elif it.kind == 'raw':
             out.append(it.text.rstrip('\n') + '\n')
